@@ -21,6 +21,7 @@ def shards(tier, seed):
     out = [{"id": "h%d" % i, "kind": "hist", "n": per} for i in range(n)]
     out += [{"id": "tour%d" % i, "kind": "tour", "n": 12 if tier == "quick" else 600} for i in range(4)]
     out += [{"id": "big%d" % i, "kind": "big", "n": 1 if tier == "quick" else 6, "i": i} for i in range(8)]
+    out += [{"id": "congruent%d" % i, "kind": "congruent", "n": 6 if tier == "quick" else 200} for i in range(2)]
     return out
 
 
@@ -92,6 +93,29 @@ def gen_big(rng, i):
     return {"bs": bs, "nblocks": nblocks, "ops": ops, "devtype": 0, "inquiry_length": 96}
 
 
+def gen_congruent(rng):
+    """the largest logical unit the 16-byte commands can address (2^64 blocks); the same command with the same length and flags
+    at LBAs that differ by multiples of 2^61-1 (the modulus of CPython's integer hash) and by powers of two"""
+    m61 = (1 << 61) - 1
+    bs = rng.choice([512, 4096])
+    nblocks = 1 << 64
+    base = rng.choice([0, 7, 100, (1 << 32) + 3])
+    tl = rng.choice([1, 2, 8])
+    lbas = [base + k * m61 for k in range(0, 8)] + [base + (1 << 61), base + (1 << 62), base + (1 << 63), nblocks - tl]
+    rng.shuffle(lbas)
+    ops = []
+    for lba in lbas:
+        ops.append({"kind": "write", "width": 16, "lba": lba, "tl": tl, "id": len(ops), "kw": {}})
+    for lba in [x for x in lbas if x + 2 * tl <= nblocks][:4]:
+        ops.append({"kind": "writesame", "width": 16, "lba": lba + tl, "tl": tl, "id": len(ops), "kw": {}})
+    for lba in sorted(lbas):
+        ops.append({"kind": "read", "width": 16, "lba": lba, "tl": tl, "id": len(ops), "kw": {}})
+        ops.append({"kind": "read", "width": 16, "lba": lba + tl if lba + 2 * tl <= nblocks else lba, "tl": tl, "id": len(ops), "kw": {}})
+    ops.append({"kind": "cap", "width": 16, "lba": 0, "tl": 0, "id": len(ops)})
+    ops.append({"kind": "cap", "width": 10, "lba": 0, "tl": 0, "id": len(ops)})
+    return {"bs": bs, "nblocks": nblocks, "ops": ops, "devtype": 0, "inquiry_length": 96}
+
+
 def run_tour(ctx, rng, world):
     """one facade object visits 2-5 logical units in turn through s(dev) (both transports, different geometries; some units
     do not implement READ CAPACITY(16), as SBC-2 allows); on every visit capacity, inquiry and a write/read round trip
@@ -103,6 +127,14 @@ def run_tour(ctx, rng, world):
     from vmon.sim.target import Target
 
     units = []
+    route = {}
+
+    def dispatch(ev):
+        key = ("is", ev["lun"]) if ev.get("transport") == "iscsi" else ("sg", ev["file"].name)
+        if key not in route:
+            return 2, Target().sense(5, 0x25)  # LOGICAL UNIT NOT SUPPORTED
+        return route[key].handle(ev)
+
     for i in range(rng.randint(2, 5)):
         bs = rng.choice([512, 520, 4096])
         nblocks = rng.choice([1 << 20, (1 << 21) + 5, (1 << 32) + 0x3039, 1 << 41])
@@ -112,9 +144,14 @@ def run_tour(ctx, rng, world):
             tgt.unsupported = {"ReadCapacity16", "GetLBAStatus"}
         transport = rng.choice(["sgio", "iscsi"])
         if transport == "sgio":
-            dev = init_device(devnode.new_node(), read_write=True)
+            node = devnode.new_node()
+            dev = init_device(node, read_write=True)
+            route[("sg", node)] = tgt
         else:
-            dev = init_device("iscsi://192.0.2.1:3260/iqn.2003-01.org.example:disk%d/%d" % (i, i), initiator_name="iqn.2003-01.org.example:me")
+            # the logical units of one array: same portal, target and initiator, different LUNs, all open at the same time
+            lun = 300 * i + i
+            dev = init_device("iscsi://192.0.2.1:3260/iqn.2003-01.org.example:array/%d" % lun, initiator_name="iqn.2003-01.org.example:me")
+            route[("is", lun)] = tgt
         units.append((tgt, transport, dev, {}))
     world["sg"].log = []
     world["is"].log = []
@@ -124,7 +161,7 @@ def run_tour(ctx, rng, world):
         order = list(range(len(units))) + [rng.randrange(len(units)) for _ in range(rng.randint(1, 6))]
         for step, u in enumerate(order):
             tgt, transport, dev, shadow = units[u]
-            world["sg"].handler = world["is"].handler = tgt.handle
+            world["sg"].handler = world["is"].handler = dispatch
             visits.append((u, transport, hex(tgt.nblocks), sorted(tgt.unsupported)))
             wit = {"visits": visits[-6:], "unit": u, "transport": transport, "bs": tgt.bs, "nblocks": tgt.nblocks, "unsupported": sorted(tgt.unsupported)}
             try:
@@ -332,7 +369,9 @@ def run(shard, ctx):
             ctx.count("tours")
         return
     for h in range(shard["n"]):
-        hist = gen_big(rng, shard["i"] + 8 * h) if shard.get("kind") == "big" else gen_history(rng)
+        hist = gen_big(rng, shard["i"] + 8 * h) if shard.get("kind") == "big" else gen_congruent(rng) if shard.get("kind") == "congruent" else gen_history(rng)
+        if shard.get("kind") == "congruent":
+            ctx.count("congruent_lba_histories")
         if shard.get("kind") == "big":
             ctx.add("big_transfer_bytes", hist["ops"][0]["tl"] * hist["bs"])
         r1, ov1 = run_history(ctx, hist, "sgio", world)
@@ -361,5 +400,5 @@ def finalize(merged, tier):
 
 def replay(rec, ctx):
     sh = rec.get("shard") or "h0"
-    kind = "tour" if sh.startswith("tour") else "big" if sh.startswith("big") else "hist"
+    kind = "tour" if sh.startswith("tour") else "big" if sh.startswith("big") else "congruent" if sh.startswith("congruent") else "hist"
     run({"id": sh, "kind": kind, "n": 13 if kind == "hist" else 12 if kind == "tour" else 1, "i": int(sh[3:]) if kind == "big" else 0}, ctx)
